@@ -133,19 +133,19 @@ Proof.
   intros live n e. induction live as [|x live IH]; intros Hnd He Hn; [destruct He|].
   cbn. unfold named at 1. destruct (String.eqb (e_name x) n) eqn:Eq.
   - apply String.eqb_eq in Eq. destruct He as [->|He]; [reflexivity|].
-    cbn in Hnd. inversion Hnd; subst. exfalso. apply H1. rewrite Eq, <- Hn. apply in_map, He.
+    cbn in Hnd. inversion Hnd as [|y l Hy Hl]. exfalso. apply Hy. rewrite Eq, <- Hn. apply in_map, He.
   - destruct He as [->|He]; [apply String.eqb_neq in Eq; congruence|].
-    cbn in Hnd. inversion Hnd; subst. apply IH; auto.
+    cbn in Hnd. inversion Hnd as [|y l Hy Hl]. apply IH; auto.
 Qed.
 
 Lemma pinv_clauses : forall p r B U s,
-  pinv p r B U -> r_user r = true \/ U = [] ->
+  pinv p r B U ->
   simple_loop [] (B ++ U) = Some s ->
   let f := pick (B ++ U) (map cb_name (B ++ U)) s in
   map fst f = s /\ spec_handler (r_live r) f = true /\ spec_sides (r_live r) f = true
   /\ spec_builtin (r_live r) f = true.
 Proof.
-  intros p r B U s I _ Hs. cbn zeta.
+  intros p r B U s I Hs. cbn zeta.
   pose proof (pinv_simple_ok _ _ _ _ I) as OK.
   destruct I as [R Hu Hcs Hp HBn HU0 Ht Hbi Hnb Hhid].
   set (cs := B ++ U) in *. set (names := map cb_name cs).
